@@ -316,10 +316,13 @@ func (self *BinaryConv) doRecurse(ctx context.Context, s string, jp int, desc *t
 							return ret, errSyntax(s, jp)
 						}
 						ret = jp
-						if err = self.handleValueMapping(ctx, s, start, ft, p, jp); err != nil {
-							return ret, err
+						// NOTICE: a null value means the field is not given
+						if s[start:jp] != "null" {
+							if err = self.handleValueMapping(ctx, s, start, ft, p, jp); err != nil {
+								return ret, err
+							}
+							bm.Set(ft.ID(), thrift.OptionalRequireness)
 						}
-						bm.Set(ft.ID(), thrift.OptionalRequireness)
 
 					} else {
 						// normal json mapping
